@@ -333,4 +333,103 @@ theorem metaLoop_order (n : Nat) (good : List HdrEntry) (bad : HdrEntry) (more :
     | cons e t => simp [declared]
   simp [hbad, hne]
 
+/-! ## soundness and fuel sufficiency of the header loop, for EVERY input -/
+
+/-- invariant of the accumulator (the pairs read so far, newest first) -/
+def MetaInv (last : Nat) (acc : Meta) : Prop :=
+  List.Pairwise (· > ·) (acc.map (·.2)) ∧ (∀ p ∈ acc, p.2 ≤ last) ∧ (∀ p ∈ acc, p.2 ≤ i64Max)
+
+/-- what the header loop guarantees: never a panic; an accepted header has exactly `n` pairs,
+    strictly increasing offsets, each representable as an `i64` -/
+def MetaGood (n : Nat) : Res Meta × Nat → Prop
+  | (.ok md, _) => md.length = n ∧ List.Pairwise (· < ·) (md.map (·.2)) ∧ (∀ p ∈ md, p.2 ≤ i64Max)
+  | (.err _, _) => True
+  | (.panic _, _) => False
+
+theorem metaLoop_good (n : Nat) : ∀ (f : Nat) (s : Bytes) (i last : Nat) (acc : Meta),
+    i ≤ s.length → s.length + 1 - i ≤ f → MetaInv last acc → MetaGood n (metaLoop n f s i last acc) := by
+  intro f
+  induction f with
+  | zero => intro s i last acc hi hf; omega
+  | succ f ih =>
+    intro s i last acc hi hf hinv
+    rw [metaLoop]
+    have hw := wsEOL_progress true s i hi
+    split
+    · trivial
+    · rename_i heq; rw [heq] at hw; exact hw.elim
+    · rename_i u j heq
+      rw [heq] at hw
+      obtain ⟨w1, w2, -⟩ := hw
+      have hp := integerP_progress s j w2
+      split
+      · trivial
+      · rename_i heq2; rw [heq2] at hp; exact hp.elim
+      · rename_i obj j1 heq2
+        rw [heq2] at hp
+        obtain ⟨p1, p2, p3, p4⟩ := hp
+        split
+        · trivial
+        · have hw2 := wsEOL_progress true s j1 p4
+          split
+          · trivial
+          · rename_i heq3; rw [heq3] at hw2; exact hw2.elim
+          · rename_i u2 j2 heq3
+            rw [heq3] at hw2
+            obtain ⟨w3, w4, -⟩ := hw2
+            have hp2 := integerP_progress s j2 w4
+            split
+            · trivial
+            · rename_i heq4; rw [heq4] at hp2; exact hp2.elim
+            · rename_i ofs j3 heq4
+              have hle := integerP_le s j2 ofs j3 heq4
+              rw [heq4] at hp2
+              obtain ⟨q1, q2, q3, q4⟩ := hp2
+              split
+              · trivial
+              · rename_i hus
+                have hus' : 0 ≤ ofs.val := by simpa [isUsize] using hus
+                have hob : ofs.val.toNat ≤ i64Max := by omega
+                dsimp only
+                split
+                · trivial
+                · rename_i hord
+                  have hord' : acc = [] ∨ last < ofs.val.toNat := by
+                    cases acc with
+                    | nil => left; rfl
+                    | cons a t => right; simpa using hord
+                  obtain ⟨i1, i2, i3⟩ := hinv
+                  have hinv' : MetaInv ofs.val.toNat ((obj.val.toNat, ofs.val.toNat) :: acc) := by
+                    refine ⟨?_, ?_, ?_⟩
+                    · simp only [List.map_cons, List.pairwise_cons]
+                      refine ⟨?_, i1⟩
+                      intro x hx
+                      obtain ⟨p, hp, rfl⟩ := List.mem_map.mp hx
+                      rcases hord' with h | h
+                      · subst h; cases hp
+                      · have := i2 p hp; omega
+                    · intro p hp
+                      simp only [List.mem_cons] at hp
+                      rcases hp with hp | hp
+                      · subst hp; exact Nat.le_refl _
+                      · rcases hord' with h | h
+                        · subst h; cases hp
+                        · have := i2 p hp; omega
+                    · intro p hp
+                      simp only [List.mem_cons] at hp
+                      rcases hp with hp | hp
+                      · subst hp; exact hob
+                      · exact i3 p hp
+                  split
+                  · rename_i hlen
+                    obtain ⟨k1, k2, k3⟩ := hinv'
+                    refine ⟨?_, ?_, ?_⟩
+                    · simpa using hlen
+                    · rw [List.map_reverse, List.pairwise_reverse]; exact k1
+                    · intro p hp; exact k3 p (List.mem_reverse.mp hp)
+                  · exact ih s j3 _ _ q4 (by omega) hinv'
+
+theorem parseMetadata_good (s : Bytes) (n : Nat) : MetaGood n (parseMetadata s n) :=
+  metaLoop_good n (s.length + 1) s 0 0 [] (Nat.zero_le _) (by omega) ⟨by simp, by simp, by simp⟩
+
 end Parsley.ObjStm
